@@ -150,7 +150,30 @@ def _worker_entry(args):
         acc.case(key=("timeout", repr(item)[:200]), outcome="work-item-does-not-terminate")
         acc.violation("work-item-does-not-terminate", "timeout", {"item": repr(item)[:400]}, {"timeout_s": ITEM_TIMEOUT.get(tier), "note": "one unit of exploration that normally takes seconds did not finish: livelock in the code under test or a state space blown up by a defect"})
         return acc
-    except BaseException:  # noqa: BLE001
+    except BaseException as e:  # noqa: BLE001
+        if type(e).__name__ == "ReplayMismatch":
+            # a prefix that an earlier execution took cannot be taken again by fresh objects in the same process: behaviour depends on what
+            # earlier instances did (state shared between instances) or on something the harness does not own.  Reported, never trusted.
+            acc = Acc()
+            acc.case(key=("replay-mismatch", repr(item)[:200]), outcome="execution-not-reproducible-on-fresh-instances")
+            acc.violation("execution-not-reproducible-on-fresh-instances", "replay-mismatch", {"item": repr(item)[:400]}, {"what": str(e)[:400], "note": "fresh objects replaying an explored prefix met a different menu: state shared between instances, or nondeterminism outside the harness"})
+            return acc
+        if not isinstance(e, (HarnessError, KeyboardInterrupt, SystemExit, MemoryError)):
+            # an exception that starts inside the library and that no harness anticipated (on the unchanged tree this never happens: it would be
+            # a harness error there): the scenario did not run the way the property needs it to
+            tb = e.__traceback__
+            last = None
+            while tb is not None:
+                last = tb.tb_frame.f_code.co_filename
+                tb = tb.tb_next
+            import aiohomekit
+
+            if last and last.startswith(os.path.dirname(os.path.abspath(aiohomekit.__file__)) + os.sep):
+                acc = Acc()
+                acc.case(key=("library-exception", repr(item)[:200]), outcome=f"unanticipated-exception-from-the-library:{type(e).__name__}")
+                acc.violation(f"unanticipated-exception-from-the-library:{type(e).__name__}", "library-exception", {"item": repr(item)[:400]},
+                              {"error": f"{type(e).__name__}: {e}"[:300], "raised_in": last.replace(os.path.dirname(os.path.dirname(os.path.abspath(aiohomekit.__file__))), "<repo>"), "traceback_tail": traceback.format_exc()[-1200:]})
+                return acc
         return ("__harness_error__", traceback.format_exc(), repr(item)[:500])
     finally:
         if old is not None:
